@@ -423,10 +423,16 @@ def b_fold_prefix(ex: Exec, node: ast.Call) -> SV:
     st = s.t if s.ty.kind == "raw" else ex.seq(s)
     ety = (s.aux if isinstance(s.aux, T.Ty) else T.ANY) if s.ty.kind == "raw" else ex.elem_ty(s.ty)
     is_set = init.ty.kind in ("raw", "set") and not init.ty.is_num
+    is_int = init.ty.kind == "int"
     if is_set:
         init_t = init.t if init.ty.kind == "raw" else ex.ddom(init)
         acc = z3.Const("acc!f", S.SETV)
         acc_sv = SV(acc, T.RAW)
+    elif is_int:
+        # integer accumulator (offsets, counts): stays an integer if the step does
+        init_t = S.un_int(init.t)
+        acc = z3.Const("acc!f", S.INT)
+        acc_sv = SV(S.mk_int(acc), T.INT)
     else:
         init_t = ex.num(init)
         acc = z3.Const("acc!f", S.REAL)
@@ -438,7 +444,9 @@ def b_fold_prefix(ex: Exec, node: ast.Call) -> SV:
         ex.locals[lam.args.args[0].arg] = acc_sv
         ex.locals[lam.args.args[1].arg] = ex.typed_nopc(x, ety)
         body = ex.eval(lam.body)
-        step = body.t if is_set else ex.num(body)
+        if is_int and body.ty.kind != "int":
+            raise Unsupported("fold_prefix: integer initial value with a non-integer step")
+        step = body.t if is_set else S.un_int(body.t) if is_int else ex.num(body)
     finally:
         ex.locals = saved
         ex.bound_depth -= 1
@@ -452,6 +460,8 @@ def b_fold_prefix(ex: Exec, node: ast.Call) -> SV:
     )
     if is_set:
         return SV(term, T.RAW)
+    if is_int:
+        return SV(S.mk_int(term), T.INT)
     return SV(S.mk_real(term), T.REAL)
 
 
